@@ -177,8 +177,12 @@ def validate_evidence(ev):
 
 
 def write_evidence(prop, ev):
-    os.makedirs(os.path.join(VERIF, "evidence"), exist_ok=True)
-    path = os.path.join(VERIF, "evidence", f"{prop}.json")
+    # VERIF_EVIDENCE_DIR: used by tools/run_seed.sh so that runs against a
+    # deliberately broken scratch copy never overwrite the real evidence
+    edir = os.environ.get("VERIF_EVIDENCE_DIR") or os.path.join(VERIF,
+                                                              "evidence")
+    os.makedirs(edir, exist_ok=True)
+    path = os.path.join(edir, f"{prop}.json")
     try:
         validate_evidence(ev)
     except FileNotFoundError:
@@ -248,7 +252,9 @@ def run_check(modname, tier, seed, replay_path=None):
     for kid, (k, v) in sorted(known_hit.items()):
         print(f"KNOWN-FINDING: property={prop} {k['id']}: {k['what']}")
 
-    os.makedirs(os.path.join(VERIF, "replays"), exist_ok=True)
+    rdir = os.environ.get("VERIF_REPLAY_DIR") or os.path.join(VERIF,
+                                                            "replays")
+    os.makedirs(rdir, exist_ok=True)
     for sig, v in sorted(new_viol.items()):
         rec = {
             "property": prop,
@@ -257,7 +263,7 @@ def run_check(modname, tier, seed, replay_path=None):
             "detail": _jsonable(v["detail"]),
         }
         h = stable_hash(rec, 10)
-        path = os.path.join(VERIF, "replays", f"{prop}-{h}.json")
+        path = os.path.join(rdir, f"{prop}-{h}.json")
         with open(path, "w") as f:
             json.dump(rec, f, indent=1)
         print(f"violation[{sig}]: {str(v['detail'])[:600]}")
